@@ -1,7 +1,7 @@
 SPECIFICATION Spec
 CONSTANTS
-  MaxGrid = 16
-  MaxProc = 16
+  MaxGrid = 10
+  MaxProc = 8
   SharedSet <- BothShared
   SerialRule = "bins"
 INVARIANTS Covers Once SquareOffDiagonal ConflictFree BinsMonotone PassCount Emit
